@@ -314,7 +314,7 @@ pub fn generate(rng: &mut Rng, prop: &str) -> TapeCheck {
         1 | 2 => rng.urange(4, 24),
         _ => rng.urange(16, 60),
     };
-    let far_max: i64 = *rng.pick(&[40i64, 300, 5000, 200_000, 1_000_000, 3_000_000]);
+    let far_max: i64 = if rng.chance(1, 16) { 3_000_000 } else { *rng.pick(&[40i64, 300, 5000, 200_000, 1_000_000]) };
     let mut live = Memory::<u8>::new();
     let mut ops = Vec::new();
     let mut pos = 0i64;
